@@ -216,9 +216,11 @@ def translate(repo, gen_dir):
         if src(e) != "gtobj.afreq()":
             raise U("%s: the frequency of a genotype-matrix object is %s, not gtobj.afreq()" % (what, src(e)))
         e = P.the_assignment(fn, "p", index=1, count=2)
-        if not (isinstance(e, ast.BinOp)):
+        # the denominator: the one product mentioning the number of rows of the array (wherever it stands: quotient or reciprocal form)
+        dens = [n for n in ast.walk(e) if isinstance(n, ast.BinOp) and isinstance(n.op, ast.Mult) and "gtobj.shape" in src(n) and "gtobj.sum" not in src(n)]
+        if not isinstance(e, ast.BinOp) or not dens:
             raise U("%s: p = %s" % (what, src(e)))
-        den = e.right
+        den = dens[0]
         defs.append(P.definition("k_%s_arr_denom" % tag, [("ploidy", "Z"), ("ntaxa", "Z")], "Z",
                                  P.to_coq(den, Zs({"ploidy": "ploidy", "gtobj.shape[0]": "ntaxa"})), "%s: p = %s  (denominator)" % (what, src(e))))
         defs.append(P.definition("k_%s_arr_afreq" % tag, [("count", "float"), ("denom", "float")], "float",
